@@ -77,6 +77,8 @@ type pathState struct {
 	replayDraws []draw
 	replayPos int
 	nBranch int
+	decided map[termKey]bool // conditions already asserted on this path -> their truth value
+	memoHits int
 }
 
 type explorer struct {
@@ -314,12 +316,40 @@ func (ps *pathState) assert(c *term) {
 		return
 	}
 	ps.pc = append(ps.pc, c)
+	if ps.decided == nil {
+		ps.decided = map[termKey]bool{}
+	}
+	if c.op == "not" {
+		ps.decided[c.args[0].key()] = false
+	} else {
+		ps.decided[c.key()] = true
+	}
+}
+
+// known reports whether c was already decided on this path (the path
+// condition only grows, so the recorded side stays the only feasible one).
+func (ps *pathState) known(c *term) (bool, bool) {
+	if ps.decided == nil {
+		return false, false
+	}
+	if c.op == "not" {
+		if v, ok := ps.decided[c.args[0].key()]; ok {
+			return !v, true
+		}
+		return false, false
+	}
+	v, ok := ps.decided[c.key()]
+	return v, ok
 }
 
 // branch decides a symbolic condition, forking when both sides are feasible.
 func (ps *pathState) branch(c *term) bool {
 	if c.isConst() {
 		return c.val == 1
+	}
+	if v, ok := ps.known(c); ok {
+		ps.memoHits++
+		return v
 	}
 	ps.nBranch++
 	if ps.pos < len(ps.prefix) {
@@ -477,6 +507,12 @@ func (ps *pathState) assume(c *term) {
 	}
 	if c.isFalse() {
 		panic(pathEnd{"assume", ""})
+	}
+	if v, ok := ps.known(c); ok {
+		if !v {
+			panic(pathEnd{"assume", ""})
+		}
+		return
 	}
 	if ps.pos < len(ps.prefix) {
 		// still replaying a known-feasible prefix: the assume held there
